@@ -261,7 +261,10 @@ Proof.
   (* run encode *)
   destruct (sign_total header (JObj (flat_map (bmem H enc) m3))) as (jwt & Hsign & Hjt).
   assert (Hissue : issue E C paths max_decoys cnf header = Val (serialise_token jwt ds, JObj (flat_map (bmem H enc) m3), ds)).
-  { unfold issue. unfold C at 1. rewrite (has_reserved_top ckvs HC Hnalg). fold C. rewrite Hf. cbn [of_res obind]. change (blind H enc t') with (JObj (flat_map (bmem H enc) mems')). cbv iota.
+  { unfold issue. unfold C at 1. rewrite (has_reserved_top ckvs HC Hnalg). fold C.
+    assert (Hnc : (match cnf with Some _ => jhas_ "cnf" C | None => false end) = false).
+    { destruct cnf; [|reflexivity]. unfold C, jhas_. rewrite (T2b.obj_get_none "cnf" ckvs Hncnf). reflexivity. }
+    rewrite Hnc. rewrite Hf. cbn [of_res obind]. change (blind H enc t') with (JObj (flat_map (bmem H enc) mems')). cbv iota.
     change (match max_decoys with
             | Some m => if (0 <? m)%Z then of_res (add_decoys (flat_map (bmem H enc) mems') (ie_decoys E)) else Val (flat_map (bmem H enc) mems')
             | None => Val (flat_map (bmem H enc) mems') end) with (decoy_stage (flat_map (bmem H enc) mems') max_decoys).
